@@ -396,7 +396,8 @@ def run(ctx):
                 docs.append({"doc": d, "cls": cls, "path": ("depth", depth)})
         rec.append(Case("c10x%d" % ri, sc, docs, fam="recursive"))
     symlink_runs(ctx)
-    recf = recursive_file_cases()
+    from vlib.lookalike import lookalike_cases
+    recf = recursive_file_cases() + lookalike_cases("c10", "type") + lookalike_cases("c10s", "string")
     allc = [c for p in pairs for c in p] + rec + recf
     run_cases(ctx, allc, "c10")
     nv = 0
